@@ -181,8 +181,11 @@ fn macro_expand(
                 let mut raw_line = raw_line.clone();
                 let string_rep = ops.iter().map(|x| x.to_string());
                 for (num, replacer) in string_rep.enumerate() {
-                    raw_line = raw_line.replace(&format!("@{}", num), replacer.as_str());
-                    if raw_line.len() > MAX_MACRO_LINE {
+                    let parameter = format!("@{}", num);
+                    // length is checked before text is built, it may be too long to build
+                    let uses = raw_line.matches(parameter.as_str()).count();
+                    let length = raw_line.len() + uses * replacer.len();
+                    if length > MAX_MACRO_LINE {
                         bail!(
                             "line of macro {} grows over {} bytes after substitution, {}",
                             macro_name,
@@ -190,6 +193,7 @@ fn macro_expand(
                             line
                         );
                     }
+                    raw_line = raw_line.replace(parameter.as_str(), replacer.as_str());
                 }
                 processed.push((cp.clone(), raw_line));
             }
